@@ -103,16 +103,38 @@ Theorem C06_datetime_rejects_unreal : forall s v,
 Proof. exact datetime_rejects_unreal. Qed.
 Print Assumptions C06_datetime_rejects_unreal.
 
-(* 5. ordering/equality of dateTime against the timeline: FALSE of the faithful model
-      (known finding; four independent witnesses in Proofs/DatesOrder.v) *)
-Theorem C06_datetime_order_agrees_refuted : ~ datetime_order_agrees_statement.
-Proof. exact datetime_order_agrees_refuted. Qed.
-Print Assumptions C06_datetime_order_agrees_refuted.
+(* 5. ordering/equality of dateTime agree with the timeline, for every pair of valid values
+      (any year, 24:00:00, every offset, nanoseconds).  Before the repair 07d9224 this statement was
+      refuted of the faithful model (findings C06-F2/F3, float "duration" comparison). *)
+Theorem C06_datetime_order_agrees : forall a b,
+  valid_datetime_value a = true -> valid_datetime_value b = true ->
+  datetime_lt a b = (dt_instant a <? dt_instant b) /\ datetime_eq a b = (dt_instant a =? dt_instant b).
+Proof. exact datetime_order_agrees. Qed.
+Print Assumptions C06_datetime_order_agrees.
 
-(* 5b. the same for xs:time: equality of one instant written with two offsets fails (float rounding) *)
-Theorem C06_time_order_agrees_refuted : ~ time_order_agrees_statement.
-Proof. exact time_order_agrees_refuted. Qed.
-Print Assumptions C06_time_order_agrees_refuted.
+(* 5b. the same for xs:time *)
+Theorem C06_time_order_agrees : forall a b,
+  valid_time_value a = true -> valid_time_value b = true ->
+  time_lt a b = (t_instant a <? t_instant b) /\ time_eq a b = (t_instant a =? t_instant b).
+Proof. exact time_order_agrees. Qed.
+Print Assumptions C06_time_order_agrees.
+
+(* 5c. all six rich comparisons (lt, eq, le, gt, ge, ne as the harness observes them) *)
+Theorem C06_datetime_cmp6_agrees : forall a b,
+  valid_datetime_value a = true -> valid_datetime_value b = true ->
+  cmp6 (datetime_lt a b) (datetime_eq a b) = cmp6Z (dt_instant a) (dt_instant b).
+Proof. exact datetime_cmp6_agrees. Qed.
+Print Assumptions C06_datetime_cmp6_agrees.
+
+(* 5d. the timeline of the specification is the calendar's: the day after a real date is a real
+      date and its day number is one more (so the era arithmetic of Spec/XsdDates.v is, up to the
+      choice of day 0, the only numbering compatible with month lengths and leap years) *)
+Theorem C06_timeline_is_the_calendar : forall y m d,
+  real_date y m d = true ->
+  let '(y', m', d') := next_day y m d in
+  real_date y' m' d' = true /\ days_from_civil y' m' d' = days_from_civil y m d + 1.
+Proof. exact days_from_civil_next. Qed.
+Print Assumptions C06_timeline_is_the_calendar.
 
 (* non-vacuity of the hypotheses above *)
 Example C06_guards_inhabited :
